@@ -571,7 +571,7 @@ func runC16(sc C16Sc, c *kit.Case) *kit.Violation {
 
 func init() {
 	kit.Register("C16a",
-		"rapid: Server.Announce / AnnounceTraversal over 1..40 simulated nodes with IDs structured around the infohash (some answering under another ID than advertised), each answering get_peers with a distinct token / an empty token / no token / a non-string token / an error / nothing, with 0..5 `values`, and naming 0..5 neighbours; options port / implied port (also with port 0) / scrape / no announce; Close or StopTraversing injected before the reply to the n-th get_peers (racing the replies), or applied at a quiescent point while the consumer has paused after n deliveries (racing nothing), or never; the consumer reads the peers channel to the end. Oracle: every announce_peer on the wire goes to a node that answered get_peers with a token in this traversal and was delivered on the peers channel, carries exactly that node's token, the infohash and the configured port / implied_port, at most once per node, to at most 8 nodes, each of which has fewer than 8 token-bearing responders strictly closer to the infohash; none when announcing is disabled; every get_peers response is delivered exactly once on the peers channel with the responder's address, ID and values (also when the stop was applied at a quiescent point; at most once, and nothing fabricated, when the stop raced the replies); the channel is closed, Finished() fires, no transaction is outstanding and nothing is sent afterwards. Non-trivial: >= 9 token-bearing responders with distinct tokens, or a stop injected mid-traversal.",
+		"rapid: Server.Announce / AnnounceTraversal over 1..40 simulated nodes with IDs structured around the infohash (some answering under another ID than advertised), each answering get_peers with a distinct token / an empty token / no token / a non-string token / an error / nothing, with 0..5 `values`, and naming 0..5 neighbours; contacts named under aliased IDs, nodes known by the v4-mapped form of their address, responders claiming the announcing node's own ID, BEP 42 enforced with liars answering under invalid IDs (heard, never members of the closest set); options port / implied port (also with port 0) / scrape / no announce; the lookup's run loop scheduled last on every pass; Close while an announce_peer that will never be answered is outstanding; Close or StopTraversing injected before the reply to the n-th get_peers (racing the replies), or applied at a quiescent point while the consumer has paused after n deliveries (racing nothing), or never; the consumer reads the peers channel to the end. Oracle: every announce_peer on the wire goes to a node that answered get_peers with a token in this traversal and was delivered on the peers channel, carries exactly that node's token, the infohash and the configured port / implied_port, at most once per node, to at most 8 nodes, each of which has fewer than 8 token-bearing responders strictly closer to the infohash; none when announcing is disabled; every get_peers response is delivered exactly once on the peers channel with the responder's address, ID and values (also when the stop was applied at a quiescent point; at most once, and nothing fabricated, when the stop raced the replies); the channel is closed, Finished() fires, no transaction is outstanding and nothing is sent afterwards. Non-trivial: >= 9 token-bearing responders with distinct tokens, or a stop injected mid-traversal.",
 		[]string{"with Close/StopTraversing injected, a reply racing the cancellation may be dropped by the library: exactly-once delivery is asserted only when no stop was injected", "an empty-string token may be echoed as an absent token (the wire type omits empty strings)"},
 		genC16, func(sc C16Sc, c *kit.Case) *kit.Violation {
 			// a lookup that ends early because of the stale stall report (known finding F10 of C03) can lose a
